@@ -162,6 +162,14 @@ Example exh_context_free_string_differs :
   run2_s (execs2 3) exh_ctx (EVar [] [118]%N) (AppS (SOfObj false OVariable)) [] = Ok [32]%N.
 Proof. vm_compute. repeat split; reflexivity. Qed.
 
+(* variable(..)->num() instead of ->num(executionContext): XObject::num() of a boolean is
+   toDouble("true"), not 1 *)
+Example exh_context_free_num_differs :
+  let c := mkCtx exh_doc 1 [1] [([], [118]%N, VBool true)] (fun _ _ => false) in
+  run2_n (execs2 3) c (EVar [] [118]%N) (WrN (NOfObj true OVariable)) = Ok d_one /\
+  run2_n (execs2 3) c (EVar [] [118]%N) (WrN (NOfObj false OVariable)) = Ok d_nan.
+Proof. vm_compute. split; reflexivity. Qed.
+
 (* a Union(.., bool&) that only looks whether an operand fills the list (instead of building the
    union) drops operands that return an object: ($v | z) would be false *)
 Example exh_union_any_fills_differs :
